@@ -65,10 +65,12 @@ def check_live_views(actor, where):
     except Exception as e:  # noqa
         raise Violation("reader_open_raised", "%s: %s" % (type(e).__name__, e), sig="reader_open_raised:" + exc_sig(e))
     try:
-        res = compare_reader(r, docs, mi.schema, mi.field_names, parts=("count", "docs", "terms"))
+        # columns are what sorting and facets read: a deleted document's sort key must not
+        # survive attached to a live document
+        res = compare_reader(r, docs, mi.schema, mi.field_names, parts=("count", "docs", "terms", "columns"))
         if res:
             clause = {"count": "doc_count_exact", "docs": "live_documents_exact",
-                      "terms": "postings_show_live_only"}[res[0]]
+                      "terms": "postings_show_live_only", "columns": "deleted_invisible:sort_keys"}[res[0]]
             raise Violation(clause, "%s: %s" % (where, res[1]))
         dca = r.doc_count_all()
         if dca < len(live):
